@@ -996,6 +996,13 @@ func main() {
 		emit("Transaction_MarshalJSON", me("Transaction", "MarshalJSON"))
 		emit("StreamEvent_MarshalJSON", me("StreamEvent", "MarshalJSON"))
 		emit("ColumnData_MarshalJSON", me("ColumnData", "MarshalJSON"))
+		// replication.printTimestamp: an oracle (ext_printTimestamp) of the translated CellBytes, modelled by print_timestamp tz
+		if fd := rp.funcDecl("printTimestamp"); fd != nil {
+			txt := normSrc(rp, fd)
+			fmt.Fprintf(&b, "(* %s: %d bytes of normalised source *)\nDefinition src_%s : list Z := %s.\n\n", "printTimestamp", len(txt), "printTimestamp", bstr(txt))
+		} else {
+			die("source pin: printTimestamp not found")
+		}
 		// every method of the root package, as "Type.Method" (a new MarshalJSON / String method changes how values
 		// are serialised without touching the functions above)
 		var ms []string
